@@ -93,8 +93,10 @@ def _check_records(ctx, recs, dis, stats):
             lines.append(l)
     ans = ctx.lean.call_batch(lines)
     i = 0
+    main_answers = []
     for r in recs:
         a = ans[i]
+        main_answers.append(a)
         i += 1
         ok = compare(r["kind"], r["real"], a)
         for l, bits in r.get("dec", []):
@@ -113,7 +115,7 @@ def _check_records(ctx, recs, dis, stats):
         _hist(ctx, r, a)
         if len(ctx.cov.samples) < 8 and r["nontrivial"] and r["nops"] >= 4 and stats["n"] % 97 == 0:
             ctx.cov.samples.append({"call": r["line"], "real": r["real"], "model": a})
-    return ans
+    return main_answers
 
 
 def _self_test(ctx, recs, answers):
